@@ -6,23 +6,36 @@ FRAGMENT = {
  'level': 'exploration',
  'quick': {'runs': 24000, 'budget_s': 28, 'workers': 16},
  'thorough': {'runs': 2000000, 'budget_s': 600, 'workers': 16, 'det_sample': 200},
- 'level_text': 'seeded exploration of PES and TS streams (encoder written from ISO 13818-1 / EN 300 472 / EN 301 775: frames, split frames, stuffing '
-               'variants, foreign stream ids / PIDs / null and adaptation-only packets) x damage (see fault kinds) x partitions into feed calls (single bytes, '
-               'header straddling sizes, cuts at and around packet boundaries; for short streams every single cut and a lattice of two-cut partitions is '
-               'enumerated) x callback / coroutine interface; differential against the one-call run of the same bytes, recovery oracle for framed-safe damage; '
-               'real demultiplexer under ASan+UBSan with exactly sized heap buffers; sampling, not proof',
- 'level_note': 'trusted: the stream encoder (mine), the classification of frames as exempt (the frame pending when the damage arrives, frames overlapping '
-               'the damaged byte interval, the first frame wholly after it) versus must-be-delivered, clang sanitizers, the edge budget as hang detector.  '
-               'Arbitrary garbage / arbitrary bit flips are only used for the robustness and partition clauses (they can imitate a start code with a 64 KiB length)',
+ 'level_text': 'seeded exploration of PES and TS streams (encoder written from ISO 13818-1 / EN 300 472 / EN 301 775: frames of Teletext / VPS / WSS / caption lines, '
+               'unknown-line Teletext units, frames split over PES packets, stuffing variants, reserved and monochrome data units, PES header variants, foreign '
+               'stream ids / PIDs / null, adaptation-only and legally duplicated packets; in some runs the real vbi_dvb_mux makes the PES packets) x damage (see fault '
+               'kinds) x partitions into feed calls (single bytes, header straddling sizes, cuts at and around unit boundaries; for short streams every single cut '
+               'and a lattice of two-cut partitions is enumerated, through vbi_dvb_demux_reset) x callback / coroutine interface with several sliced-array sizes; '
+               'differential against the one-call run of the same bytes through a fresh demultiplexer, delivery / recovery oracle against the frames as sent; real '
+               'demultiplexer under ASan+UBSan with exactly sized heap buffers; sampling, not proof',
+ 'level_note': 'trusted: the stream encoder (mine), the classification of sent frames as must-be-delivered versus exempt (exempt: damaged frames, the frame pending '
+               'when damage arrives, the first intact frame after a damaged place, in TS additionally a frame that cannot be told from the remainder of that first '
+               'frame once its first PES packet is lost to resynchronisation; in PES streams everything inside the length claimed by a damaged packet header counts '
+               'as damaged), clang sanitizers, the edge budget as hang detector.  Arbitrary garbage / bit flips / random streams are only used for the robustness and '
+               'partition clauses (they can imitate a start code with a 64 KiB length); the recovery clause is evaluated when the framing patterns 00 00 01 / 0x47 '
+               'occur only at genuine unit starts of the final byte stream (verified per run)',
  'design_ref': 'DESIGN.md section 6 (C07)',
- 'rule': 'one evaluation = one simulated run: a stream of 2-14 frames (quick) plus foreign units, damaged by 0-4 planned faults, delivered once in one call '
-         '(reference) and once in pieces chosen by plan and scheduler through the planned interface; non-trivial = at least 3 frames delivered and at least 4 '
-         'feed calls; distinct = distinct event-log hash',
- 'fault_kinds': ['fault_ts_drop', 'fault_ts_dup', 'fault_ts_swap', 'fault_ts_cc', 'fault_ts_tei', 'fault_ts_scrambled', 'fault_ts_pusi', 'fault_ts_afc',
-                 'fault_pes_trunc', 'fault_pes_length', 'fault_pes_header', 'fault_du_illegal', 'fault_bitflip_du', 'fault_bitflip_any', 'fault_garbage_safe',
-                 'fault_garbage_any', 'fault_foreign', 'fault_random_stream'],
- 'components': {'real': ['src/dvb_demux.c', 'src/hamm.c (vbi_rev8)'],
-                'stub': ['PES/TS stream encoder', 'fault injector on stream units', 'transport = seeded scheduler over source / transport tasks']},
+ 'rule': 'one evaluation = one simulated run: a stream of 2-16 frames (quick; 1-5 in enumeration runs) plus foreign units multiplexed by the seeded scheduler, damaged by '
+         '0-4 planned faults, delivered once in one call (reference) and once in pieces chosen by plan and scheduler through the planned interface; non-trivial = at '
+         'least 3 frames delivered and at least 4 feed calls; distinct = distinct event-log hash',
+ 'fault_kinds': ['fault_ts_drop', 'fault_ts_dup', 'fault_ts_swap', 'fault_ts_cc', 'fault_ts_tei', 'fault_ts_scrambled', 'fault_ts_pusi', 'fault_ts_afc', 'fault_ts_trunc',
+                 'fault_ts_pid', 'fault_pes_drop', 'fault_pes_dup', 'fault_pes_swap', 'fault_pes_trunc', 'fault_pes_length', 'fault_pes_header', 'fault_du_illegal',
+                 'fault_bitflip_du', 'fault_bitflip_any', 'fault_garbage_safe', 'fault_garbage_any', 'fault_foreign', 'fault_random_stream'],
+ 'components': {'real': ['src/dvb_demux.c', 'src/hamm.c (vbi_rev8)', 'src/dvb_mux.c (stream source of ~6% of the runs)'],
+                'stub': ['PES/TS stream encoder', 'multiplexer of VBI / foreign sources = seeded scheduler', 'fault injector on stream units',
+                         'transport = pipe + task taking pieces of planned size from what the scheduler let the sources produce']},
  'assumptions': ['the frame still pending in the demultiplexer when damage arrives (not yet flushed by its successor) may be lost',
-                 'duplicated TS packets are treated as damage although ISO 13818-1 permits them']}
+                 'consecutive frames are sent recognisable: the first data unit of a frame is a numbered line not above the last line of the previous frame, or an '
+                 'unknown-line unit of the other field (EN 301 775 has no frame delimiter but the PTS)',
+                 'a duplicated TS packet (same continuity_counter, next in its PID) is legal input (ISO 13818-1 2.4.3.3), a duplicated PES packet is damage',
+                 'the coroutine interface delivers at most max_lines lines of a frame (documented) and cannot show a frame without lines',
+                 'generate() steers around three reported defects (out/C07/fix-1..3.diff) until they are repaired (knobs steer, lead_in, ts_min2; set STEER_DEFAULT = 0 '
+                 'in worlds/w_c07.cc afterwards): TS streams start with a null packet and damaged TS streams carry no PES packet that fits into one TS packet; '
+                 'unknown-line units are used only with the callback interface in TS or fault-free PES runs and never lead a frame in the second field; the PES '
+                 'coroutine interface is used in undamaged runs only; the reserved data_unit_id 0x00 and the libzvbi private ids 0xB4-0xB6 are not generated']}
 }
